@@ -83,32 +83,68 @@ def http_wrap(body, framing, chunk_cuts):
     return HTTP_HEAD + b"\r\n" + body, None
 
 
-def run_http(maxline, stream, cuts, framing):
-    """the real Respondent: events of a text/event-stream response received in pieces"""
+def lift(lines):
+    """events / leid / retry as the Respondent shows them: `.retry` starts at Respondent.Retry = 100 and follows the
+    EventSource once that has a retry; `.leid` follows the EventSource's last event id"""
+    return [lines[0].replace("retry=~", "retry=100")] + list(lines[1:]) if lines else lines
+
+
+def run_http(maxline, stream, cuts, framing, entry="respondent", close_with_last=False):
+    """events of a text/event-stream response received in pieces through the real client code.
+    entry "respondent": msg.extend + Respondent.parse() per piece (close() + parse() at the end when the body is
+    delimited by the close).  entry "patron": Patron.serviceAll() per pass, the pieces arrive through
+    connector.serviceReceives(); `close_with_last`: the pass that receives the last piece also detects the server's close
+    (connector.cutoff), else the close is noticed one pass later."""
     from ioflo.aio.http import httping, clienting
     old = httping.MAX_LINE_SIZE
     httping.MAX_LINE_SIZE = maxline
     try:
-        msg = bytearray()
-        r = clienting.Respondent(msg=msg, method="GET")
         status = "running"
-        ops = list(pieces_of(stream, cuts)) + ([None] if framing == "close" else [])
-        for op in ops:
-            if op is None:
-                r.close()
-            else:
-                msg.extend(op)
-            try:
-                r.parse()
-            except Exception as ex:
-                if status == "running":
-                    status = "dead:" + type(ex).__name__
+        pieces = list(pieces_of(stream, cuts))
+        if entry == "patron":
+            patron = clienting.Patron(hostname="127.0.0.1", port=8080, method="GET", path="/stream", redirectable=False)
+            con = patron.connector
+            queue = list(pieces)
+
+            def receives():
+                if queue:
+                    con.rxbs.extend(queue.pop(0))
+                    if not queue and close_with_last:
+                        con.cutoff = True
+            con.serviceReceives = receives
+            con.serviceTxes = lambda: None
+            con.serviceConnect = lambda: None
+            con.connected = True
+            con.reconnectable = False
+            patron.transmit(method="GET")
+            r = patron.respondent
+            for n in range(len(pieces) + 3):
+                if n == len(pieces) and framing == "close":
+                    con.cutoff = True                  # the close is noticed (at the latest) one pass after the last bytes
+                try:
+                    patron.serviceAll()
+                except Exception as ex:
+                    if status == "running":
+                        status = "dead:" + type(ex).__name__
+        else:
+            msg = bytearray()
+            r = clienting.Respondent(msg=msg, method="GET")
+            for op in pieces + ([None] if framing == "close" else []):
+                if op is None:
+                    r.close()
+                else:
+                    msg.extend(op)
+                try:
+                    r.parse()
+                except Exception as ex:
+                    if status == "running":
+                        status = "dead:" + type(ex).__name__
         if r.errored and status == "running":
             status = "errored"
         es = r.eventSource
         if es is None:
             return ["no-event-source status=%s" % status]
-        out = ["leid=%s retry=%s status=%s" % (ohx(es.leid), "~" if es.retry is None else "%d" % es.retry, status)]
+        out = ["leid=%s retry=%s status=%s" % (ohx(r.leid), "~" if r.retry is None else "%d" % r.retry, status)]
         for e in r.events:
             out.append("ev %s %s %s" % (ohx(e["id"]), ohx(e["name"]), ohx(e["data"])))
         return out
@@ -274,16 +310,26 @@ class CHECK(core.Check):
                     yield self._mk(s, [i, j])
         # the same events carried by a real HTTP response (chunked / until close) through clienting.Respondent:
         # every single cut of the HTTP stream, an idle pass at every cut, and everything in one receive
-        body = b"id: 1\ndata: one\r\ndata: two\r\n\r\nretry: 7\rdata: x\n\n"
-        exp = {"events": [["1", "", "one\ntwo"], ["1", "", "x"]]}
-        for framing, ccs in (("chunked", [[5, 17, 30]] + ([[1, 2, 3, 40], []] if tier == "thorough" else [])), ("close", [[]])):
-            for cc in ccs:
-                stream, _ = http_wrap(body, framing, cc)
-                yield self._http_case(None, body=body, expect=exp, framing=framing, cuts=[], chunk_cuts=cc)
-                for k in range(1, len(stream)):
-                    yield self._http_case(None, body=body, expect=exp, framing=framing, cuts=[k], chunk_cuts=cc)
-                    if tier == "thorough" or k % 3 == 0:
-                        yield self._http_case(None, body=body, expect=exp, framing=framing, cuts=[k, k], chunk_cuts=cc)
+        bodies = [(b"id: 1\ndata: one\r\ndata: two\r\n\r\nretry: 7\rdata: x\n\n",
+                   {"events": [["1", "", "one\ntwo"], ["1", "", "x"]]}),
+                  # retry 0 after a retry, an empty id after an id (the last-event-id is reset), then an id again
+                  (b"retry: 5\nid: a\ndata: p\n\nretry: 0\nid\ndata: q\n\nid: b\ndata: r\n\nid:\n\n",
+                   {"events": [["a", "", "p"], ["", "", "q"], ["b", "", "r"]]})]
+        for body, exp in bodies:
+            for framing, ccs in (("chunked", [[5, 17, 30]] + ([[1, 2, 3, 40], []] if tier == "thorough" else [])), ("close", [[]])):
+                for cc in ccs:
+                    stream, _ = http_wrap(body, framing, cc)
+                    for entry, cwl in (("respondent", False), ("patron", False), ("patron", True)):
+                        yield self._http_case(None, body=body, expect=exp, framing=framing, cuts=[], chunk_cuts=cc,
+                                              entry=entry, cwl=cwl)
+                        for k in range(1, len(stream)):
+                            if tier != "thorough" and entry == "patron" and k % 2:
+                                continue
+                            yield self._http_case(None, body=body, expect=exp, framing=framing, cuts=[k], chunk_cuts=cc,
+                                                  entry=entry, cwl=cwl)
+                            if tier == "thorough" or k % 3 == 0:
+                                yield self._http_case(None, body=body, expect=exp, framing=framing, cuts=[k, k],
+                                                      chunk_cuts=cc, entry=entry, cwl=cwl)
 
     def _wellformed(self, rng):
         nev = rng.choice([1, 1, 2, 3, 5])
@@ -322,7 +368,7 @@ class CHECK(core.Check):
                 return False
         return True
 
-    def _http_case(self, rng, body=None, expect=None, framing=None, cuts=None, chunk_cuts=None):
+    def _http_case(self, rng, body=None, expect=None, framing=None, cuts=None, chunk_cuts=None, entry=None, cwl=None):
         if body is None:
             body, expect = self._wellformed(rng)
             while EOL_RE.split(body)[-1] != b"":      # a complete stream: the response ends after it
@@ -333,8 +379,12 @@ class CHECK(core.Check):
         stream, _ = http_wrap(body, framing, chunk_cuts)
         if cuts is None:
             cuts = gen_cuts(rng, len(stream))
+        if entry is None:
+            entry = rng.choice(["respondent", "patron", "patron"])
+        if cwl is None:
+            cwl = entry == "patron" and rng.random() < 0.5
         c = {"type": "http", "max": 65536, "stream": hx(body), "framing": framing, "chunk_cuts": list(chunk_cuts),
-             "cuts": list(cuts)}
+             "cuts": list(cuts), "entry": entry, "close_with_last": bool(cwl)}
         if expect is not None:
             c["expect"] = expect
         return c
@@ -405,19 +455,22 @@ class CHECK(core.Check):
         return ["sse %d %s" % (case["max"], " ".join(ops))]
 
     def model_post(self, case, replies):
+        if case.get("type") == "http":
+            return lift(replies[0].split(" | "))     # the Respondent's view of the model's leid / retry
         return replies[0].split(" | ")
 
     def impl(self, case):
         if case.get("type") == "http":
             stream, _ = self._http_increments(case)
-            return run_http(case["max"], stream, case["cuts"], case["framing"])
+            return run_http(case["max"], stream, case["cuts"], case["framing"], case.get("entry", "respondent"),
+                            case.get("close_with_last", False))
         return run_impl(case["max"], self._ops(case))
 
     # ---------------------------------------------------------------- property
     def oracle(self, case, out):
         if case.get("type") == "http":
             body = unhx(case["stream"])
-            direct = run_impl(case["max"], [body])           # a bare EventSource given the body at once
+            direct = lift(run_impl(case["max"], [body]))     # a bare EventSource given the body at once
             if out != direct:
                 return ("events of the event-stream response (%s, chunks at %r, receives cut at %r) %r differ from the "
                         "events of its body %r" % (case["framing"], case["chunk_cuts"], case["cuts"], out[:4], direct[:4]))
@@ -457,7 +510,9 @@ class CHECK(core.Check):
 
     def bucket(self, case, out):
         if case.get("type") == "http":
-            return "http-%s/chunks%d/pieces%d/%s" % (case["framing"], min(len(case["chunk_cuts"]) + 1, 4),
+            return "http-%s-%s%s/chunks%d/pieces%d/%s" % (case.get("entry", "respondent"), case["framing"],
+                                                     "-closewithlast" if case.get("close_with_last") else "",
+                                                     min(len(case["chunk_cuts"]) + 1, 4),
                                                      min(len(case["cuts"]) + 1, 4), out[0].split("status=")[-1])
         stream = unhx(case["stream"])
         kinds = set(EOL_RE.findall(stream))
